@@ -610,6 +610,33 @@ pub fn get<'a>(it: &'a Item, path: &[usize]) -> Option<&'a Item> {
     }
 }
 
+/// Rewrite some integers of the tree as bignums (tag 2 / tag 3 around the big-endian magnitude).
+pub fn bignumify(rng: &mut Rng, it: &mut Item, depth: usize) {
+    if depth > 64 {
+        return;
+    }
+    match &mut it.kind {
+        Kind::Array(a) => a.iter_mut().for_each(|x| bignumify(rng, x, depth + 1)),
+        Kind::Map(m) => m.iter_mut().for_each(|(k, v)| {
+            bignumify(rng, k, depth + 1);
+            bignumify(rng, v, depth + 1);
+        }),
+        Kind::Tag(_, b) => bignumify(rng, b, depth + 1),
+        Kind::UInt(v) if rng.chance(1, 2) => {
+            let bytes = v.to_be_bytes();
+            let skip = bytes.iter().take_while(|b| **b == 0).count().min(7);
+            *it = Item::tag(2, Item::bytes(&bytes[skip..]));
+        }
+        Kind::NInt(v) if rng.chance(1, 2) => {
+            let bytes = v.to_be_bytes();
+            let skip = bytes.iter().take_while(|b| **b == 0).count().min(7);
+            *it = Item::tag(3, Item::bytes(&bytes[skip..]));
+        }
+        _ => {}
+    }
+}
+
+
 #[cfg(test)]
 mod tests {
     use super::*;
